@@ -14,7 +14,7 @@ pub enum Tier {
 }
 
 pub const ORD_TYPES: [ElemTy; 6] = [ElemTy::I8, ElemTy::I32, ElemTy::I64, ElemTy::U8, ElemTy::U64, ElemTy::N64];
-pub const NAN_TYPES: [ElemTy; 4] = [ElemTy::F64, ElemTy::F32, ElemTy::OptI32, ElemTy::OptU8];
+pub const NAN_TYPES: [ElemTy; 5] = [ElemTy::F64, ElemTy::F32, ElemTy::OptI32, ElemTy::OptU8, ElemTy::OptN64];
 
 pub struct WorldSpec {
     pub ndim: usize,
@@ -187,7 +187,7 @@ pub fn add_identity_noise(rng: &mut Rng, ty: ElemTy, raws: &mut [i64]) {
                 *r = (*r & !0xffff_ffff) | rng.below(1 << 16) as i64;
             }
         }
-        ElemTy::N64 | ElemTy::F64 | ElemTy::F32 => {
+        ElemTy::N64 | ElemTy::F64 | ElemTy::F32 | ElemTy::OptN64 => {
             if rng.chance(1, 3) {
                 for r in raws.iter_mut() {
                     if rng.chance(1, 3) {
@@ -296,32 +296,41 @@ fn new_op(rng: &mut Rng, name: &str) -> Op {
 fn lens_for(rng: &mut Rng, nd: usize, lane_max: usize, other_max: usize, allow_zero: bool) -> Vec<usize> {
     // one axis is "the long one", the others stay small
     let long = rng.below(nd);
+    let lo = if allow_zero && rng.chance(1, 12) { 0 } else { 1 };
+    // a few long lanes in every tier: worst-case chains, round caps and size
+    // thresholds inside the library (64, 128, 512, 1024 ...) are only reachable there
+    let long_len = if rng.chance(1, 300) {
+        512 + rng.below(1100)
+    } else if rng.chance(1, 40) {
+        64 + rng.below(257)
+    } else if rng.chance(1, 16) {
+        lo.max(rng.below(101))
+    } else if rng.chance(1, 2) {
+        // bias towards small lengths, where the space saturates
+        lo.max(rng.below(5.min(lane_max) + 1))
+    } else {
+        lo.max(rng.below(lane_max + 1))
+    };
+    // keep the whole view small when one axis is long
+    let other_cap = if long_len >= 512 {
+        1
+    } else if long_len >= 64 {
+        2
+    } else {
+        other_max
+    };
     (0..nd)
         .map(|a| {
             if a == long {
-                let lo = if allow_zero && rng.chance(1, 12) { 0 } else { 1 };
-                // a few long lanes in every tier: worst-case chains, round caps and
-                // size thresholds inside the library are only reachable there
-                if rng.chance(1, 40) {
-                    return 64 + rng.below(257);
-                }
-                if rng.chance(1, 16) {
-                    return lo.max(rng.below(101));
-                }
-                // bias towards small lengths, where the space saturates
-                if rng.chance(1, 2) {
-                    lo.max(rng.below(5.min(lane_max) + 1)).max(lo)
-                } else {
-                    lo.max(rng.below(lane_max + 1))
-                }
+                long_len
             } else if allow_zero && rng.chance(1, 15) {
                 0
+            } else if long_len >= 512 && rng.chance(1, 3) {
+                2
             } else {
-                1 + rng.below(other_max)
+                1 + rng.below(other_cap)
             }
         })
-        .collect::<Vec<usize>>()
-        .into_iter()
         .collect()
 }
 
@@ -369,8 +378,52 @@ fn q_ops(rng: &mut Rng, shape: &[usize], ty: ElemTy, style: ValueStyle, max_qs: 
         let k = rng.below(cnt);
         op.qs[j] = op.qs[k];
     }
-    op.form = rng.below(3) as u8;
+    op.form = rng.below(5) as u8;
     Some(op)
+}
+
+/// length of a request list for a lane of length n: usually short, sometimes
+/// at least as long as the lane
+fn list_len(rng: &mut Rng, n: usize) -> usize {
+    if n >= 24 && rng.chance(1, 6) {
+        n + rng.below(n + 5)
+    } else {
+        rng.below(2 * n.min(16) + 1)
+    }
+}
+
+fn pick_storage(rng: &mut Rng) -> u8 {
+    if rng.chance(3, 4) {
+        0
+    } else {
+        1 + rng.below(3) as u8
+    }
+}
+
+/// A rejected bulk request on a short lane followed by the identical request
+/// on a longer lane of the same world, where it is valid (needs a 2-D view
+/// whose two axes differ in length).
+fn echo_ops(rng: &mut Rng, shape: &[usize]) -> Vec<Op> {
+    if shape.len() != 2 || shape[0] == shape[1] || shape[0] == 0 || shape[1] == 0 {
+        return vec![];
+    }
+    let (short_ax, long_ax) = if shape[0] < shape[1] { (0, 1) } else { (1, 0) };
+    let (ns, nl) = (shape[short_ax], shape[long_ax]);
+    let cnt = 1 + rng.below(5);
+    let mut idx: Vec<u64> = (0..cnt).map(|_| rng.below(nl) as u64).collect();
+    let pos = rng.below(cnt);
+    idx[pos] = (ns + rng.below(nl - ns)) as u64; // valid on the long lane only
+    let form = rng.below(5) as u8;
+    let many = rng.chance(3, 4);
+    let mut a = new_op(rng, if many { "select_many" } else { "select" });
+    a.lane = Some((short_ax, rng.below(shape[long_ax])));
+    a.idx = if many { idx.clone() } else { vec![idx[pos]] };
+    a.form = form;
+    let mut b = new_op(rng, if many { "select_many" } else { "select" });
+    b.lane = Some((long_ax, rng.below(shape[short_ax])));
+    b.idx = a.idx.clone();
+    b.form = form;
+    vec![a, b]
 }
 
 pub fn gen_array_scenario(prop: Prop, rng: &mut Rng, tier: Tier) -> Scenario {
@@ -389,21 +442,33 @@ pub fn gen_array_scenario(prop: Prop, rng: &mut Rng, tier: Tier) -> Scenario {
             let mut scn = Scenario { prop: "C02".into(), elem: ty, static_dim: false, parent_shape, data, view, ops: vec![] };
             let shape = scn.view_shape();
             for _ in 0..1 + rng.below(6) {
+                if rng.chance(1, 12) {
+                    scn.ops.extend(echo_ops(rng, &shape));
+                    continue;
+                }
                 if let Some((lane, n)) = pick_lane(rng, &shape) {
                     if n == 0 {
                         continue;
                     }
+                    // now and then a request that must be rejected sits inside the history (not judged here)
+                    let reject = rng.chance(1, 25);
                     if rng.chance(1, 2) {
                         let mut op = new_op(rng, "select");
                         op.lane = lane;
-                        op.idx = vec![rng.below(n) as u64];
+                        op.idx = vec![if reject { oor_index(rng, n) } else { rng.below(n) as u64 }];
+                        op.storage = pick_storage(rng);
                         scn.ops.push(op);
                     } else {
                         let mut op = new_op(rng, "select_many");
                         op.lane = lane;
-                        let cnt = rng.below(2 * n.min(16) + 1);
+                        let cnt = list_len(rng, n);
                         op.idx = (0..cnt).map(|_| rng.below(n) as u64).collect();
-                        op.form = rng.below(3) as u8;
+                        if reject {
+                            let pos = rng.below(op.idx.len() + 1);
+                            op.idx.insert(pos, oor_index(rng, n));
+                        }
+                        op.form = rng.below(5) as u8;
+                        op.storage = pick_storage(rng);
                         scn.ops.push(op);
                     }
                 }
@@ -424,6 +489,10 @@ pub fn gen_array_scenario(prop: Prop, rng: &mut Rng, tier: Tier) -> Scenario {
             let fault_pct = *rng.pick(&[0u32, 15, 35, 60]);
             for _ in 0..1 + rng.below(5) {
                 let fault = rng.chance(fault_pct, 100);
+                if rng.chance(1, 12) {
+                    scn.ops.extend(echo_ops(rng, &shape));
+                    continue;
+                }
                 match rng.below(10) {
                     0..=2 => {
                         if let Some((lane, n)) = pick_lane(rng, &shape) {
@@ -433,6 +502,7 @@ pub fn gen_array_scenario(prop: Prop, rng: &mut Rng, tier: Tier) -> Scenario {
                             let mut op = new_op(rng, "select");
                             op.lane = lane;
                             op.idx = vec![if fault { oor_index(rng, n) } else { rng.below(n) as u64 }];
+                            op.storage = pick_storage(rng);
                             scn.ops.push(op);
                         }
                     }
@@ -440,8 +510,9 @@ pub fn gen_array_scenario(prop: Prop, rng: &mut Rng, tier: Tier) -> Scenario {
                         if let Some((lane, n)) = pick_lane(rng, &shape) {
                             let mut op = new_op(rng, "select_many");
                             op.lane = lane;
-                            let cnt = rng.below(n.min(8) + 3);
+                            let cnt = if rng.chance(1, 8) { list_len(rng, n) } else { rng.below(n.min(8) + 3) };
                             op.idx = (0..cnt).filter_map(|_| if n > 0 { Some(rng.below(n) as u64) } else { None }).collect();
+                            op.storage = pick_storage(rng);
                             if fault {
                                 let k = 1 + rng.below(2);
                                 for _ in 0..k {
@@ -449,7 +520,7 @@ pub fn gen_array_scenario(prop: Prop, rng: &mut Rng, tier: Tier) -> Scenario {
                                     op.idx.insert(pos, oor_index(rng, n));
                                 }
                             }
-                            op.form = rng.below(3) as u8;
+                            op.form = rng.below(5) as u8;
                             scn.ops.push(op);
                         }
                     }
@@ -474,6 +545,19 @@ pub fn gen_array_scenario(prop: Prop, rng: &mut Rng, tier: Tier) -> Scenario {
                         let nb = d.len().saturating_sub(1);
                         op.aux = vec![edges];
                         op.idx = vec![if fault || nb == 0 { oor_index(rng, nb) } else { rng.below(nb) as u64 }];
+                        scn.ops.push(op);
+                    }
+                    _ if rng.chance(1, 8) => {
+                        // a grid with many axes / many bins: the total number of cells overflows usize
+                        let mut op = new_op(rng, "grid_index");
+                        let na = *rng.pick(&[7usize, 11, 16, 22, 33, 64, 70]);
+                        let nb = *rng.pick(&[2usize, 3, 16, 17, 64, 1000]);
+                        let bad_axis = rng.below(na);
+                        for j in 0..na {
+                            let l = if rng.chance(1, 6) { 1 + rng.below(4) } else { nb };
+                            op.aux.push((0..=l as i64).collect());
+                            op.idx.push(if fault && j == bad_axis { oor_index(rng, l) } else { rng.below(l) as u64 });
+                        }
                         scn.ops.push(op);
                     }
                     _ => {
@@ -532,9 +616,9 @@ pub fn gen_array_scenario(prop: Prop, rng: &mut Rng, tier: Tier) -> Scenario {
                             if n > 0 {
                                 let mut op = new_op(rng, "select_many");
                                 op.lane = lane;
-                                let cnt = rng.below(2 * n.min(16) + 1);
+                                let cnt = list_len(rng, n);
                                 op.idx = (0..cnt).map(|_| rng.below(n) as u64).collect();
-                                op.form = rng.below(3) as u8;
+                                op.form = rng.below(5) as u8;
                                 scn.ops.push(op);
                             }
                         }
@@ -556,6 +640,7 @@ pub fn gen_array_scenario(prop: Prop, rng: &mut Rng, tier: Tier) -> Scenario {
                                     let mut qs: Vec<f64> = (0..cnt).map(|_| gen_q(rng, n)).collect();
                                     qs.sort_by(|a, b| a.partial_cmp(b).unwrap());
                                     op.qs = qs;
+                                    op.form = rng.below(5) as u8;
                                 }
                                 3 => {
                                     op.strat = *rng.pick(&[Strat::Lower, Strat::Higher, Strat::Nearest]);
@@ -610,6 +695,7 @@ pub fn gen_array_scenario(prop: Prop, rng: &mut Rng, tier: Tier) -> Scenario {
                                     let mut op = new_op(rng, "partition");
                                     op.lane = lane;
                                     op.idx = vec![rng.below(n) as u64];
+                                    op.storage = pick_storage(rng);
                                     scn.ops.push(op);
                                 }
                             }
@@ -622,7 +708,8 @@ pub fn gen_array_scenario(prop: Prop, rng: &mut Rng, tier: Tier) -> Scenario {
                                     op.lane = lane;
                                     let cnt = if many { rng.below(n.min(8) + 2) } else { 1 };
                                     op.idx = (0..cnt).map(|_| rng.below(n) as u64).collect();
-                                    op.form = rng.below(3) as u8;
+                                    op.storage = pick_storage(rng);
+                                    op.form = rng.below(5) as u8;
                                     scn.ops.push(op);
                                 }
                             }
@@ -638,10 +725,12 @@ pub fn gen_array_scenario(prop: Prop, rng: &mut Rng, tier: Tier) -> Scenario {
             scn
         }
         Prop::C14 => {
-            let ty = match rng.below(8) {
+            let ty = match rng.below(10) {
                 0..=2 => ElemTy::F64,
                 3 => ElemTy::F32,
                 4..=6 => ElemTy::OptI32,
+                7 => ElemTy::OptN64,
+                8 => ElemTy::OptN64,
                 _ => ElemTy::OptU8,
             };
             let lane_max = if thorough { 40 } else { 12 };
@@ -738,16 +827,24 @@ fn gen_nan_mut_op(rng: &mut Rng, shape: &[usize]) -> Option<Op> {
 pub fn gen_det_bulk_op(rng: &mut Rng) -> Op {
     if rng.chance(1, 2) {
         let mut op = new_op(rng, "moments");
-        let n = 1 + rng.below(30);
+        let n = if rng.chance(1, 30) { 200 + rng.below(900) } else { 1 + rng.below(30) };
         op.idx = vec![rng.below(11) as u64];
-        op.aux = vec![(0..n).map(|_| rng.range(-400, 400)).collect(), vec![rng.range(0, 3)]];
+        // aux: data, [scale selector], [element kind: 0 f64, 1 f32], [offset added to every value]
+        let offset = if rng.chance(1, 3) { *rng.pick(&[1000i64, 100_000, -7_000, 1 << 20]) } else { 0 };
+        op.aux = vec![(0..n).map(|_| rng.range(-400, 400)).collect(), vec![rng.range(0, 5)], vec![rng.below(2) as i64], vec![offset]];
         op
     } else {
         let mut op = new_op(rng, "weighted_axis");
         let nd = 1 + rng.below(3);
-        let shape: Vec<i64> = (0..nd).map(|_| 1 + rng.below(5) as i64).collect();
-        let total: i64 = shape.iter().product();
+        let mut shape: Vec<i64> = (0..nd).map(|_| 1 + rng.below(5) as i64).collect();
         let axis = rng.below(nd);
+        if rng.chance(1, 25) {
+            // a long reduction axis (summation-order thresholds), the other axes stay tiny
+            for (j, s) in shape.iter_mut().enumerate() {
+                *s = if j == axis { 500 + rng.below(700) as i64 } else { 1 + rng.below(2) as i64 };
+            }
+        }
+        let total: i64 = shape.iter().product();
         op.axis = axis;
         let data: Vec<i64> = (0..total).map(|_| rng.range(-400, 400)).collect();
         // weights: mostly positive, sometimes with zeros (leading / everywhere) or mixed signs
@@ -761,7 +858,7 @@ pub fn gen_det_bulk_op(rng: &mut Rng) -> Op {
             })
             .collect();
         // aux: shape, data, weights, [elem kind: 0 f64, 1 i64, 2 f32], [layout: 0 C, 1 F]
-        op.aux = vec![shape, data, weights, vec![rng.below(3) as i64], vec![rng.below(2) as i64]];
+        op.aux = vec![shape, data, weights, vec![rng.below(3) as i64], vec![rng.below(2) as i64], vec![rng.below(4) as i64]];
         op.idx = vec![rng.below(5) as u64, rng.below(2) as u64]; // ddof = idx[0]/4 in [0,1]; idx[1]: statically-dimensioned arrays
         op
     }
@@ -808,7 +905,10 @@ pub fn gen_hist_scenario(rng: &mut Rng, tier: Tier) -> HistScenario {
     }
     let np = 1 + rng.below(4);
     let max_hist = if tier == Tier::Thorough { 400 } else { 40 };
-    let total = if rng.chance(1, 60) {
+    let total = if rng.chance(1, 400) {
+        // a very long history: batch / buffer thresholds inside the library
+        2100 + rng.below(3000)
+    } else if rng.chance(1, 60) {
         // a long history: counters pass every small power of two
         300 + rng.below(900)
     } else if rng.chance(1, 2) {
@@ -885,6 +985,7 @@ pub fn gen_hist_scenario(rng: &mut Rng, tier: Tier) -> HistScenario {
             cur = rng.below(np);
         }
     }
-    let forms = (0..delivery.len()).map(|_| rng.below(4) as u8).collect();
-    HistScenario { elem: elem.to_string(), edges, producers, delivery, forms, matrix_order: rng.below(2) as u8 }
+    let forms = (0..delivery.len()).map(|_| rng.below(5) as u8).collect();
+    let edge_forms = (0..d).map(|_| if rng.chance(1, 2) { 0 } else { rng.below(5) as u8 }).collect();
+    HistScenario { elem: elem.to_string(), edges, producers, delivery, forms, matrix_order: rng.below(4) as u8, edge_forms }
 }
